@@ -293,7 +293,18 @@ def run(repo: Repo, rep: Report, tier: str) -> None:
             n11 += 1
             sub = f"{wsr.module.relpath}:_write_strategy_based_return choice of `iter_bytes`"
             gts = [(g, pol) for g, pol in guards(cfg11, nd.id, dom11) if g.kind == "test" and pol is not None]
-            by_type = [g for g, pol in gts if pol is True and "return_type" in norm(WL.inline(g.ast, stop=tuple(WL.params))) and "bytes" in norm(WL.inline(g.ast, stop=tuple(WL.params)))]
+            def _says_bytes(t_: ast.AST, pol_: bool) -> bool:
+                """being on this side of the test means "the return type mentions bytes" (`in` / `==` on the true side, `not in` / `!=` on the false side)"""
+                t_ = WL.inline(t_, stop=tuple(WL.params))
+                while isinstance(t_, ast.UnaryOp) and isinstance(t_.op, ast.Not):
+                    t_, pol_ = t_.operand, not pol_
+                if not ("return_type" in norm(t_) and "bytes" in norm(t_)):
+                    return False
+                if isinstance(t_, ast.Compare) and len(t_.ops) == 1 and isinstance(t_.ops[0], (ast.NotIn, ast.NotEq)):
+                    return pol_ is False
+                return pol_ is True
+
+            by_type = [g for g, pol in gts if _says_bytes(g.ast, pol)]
             if by_type:
                 rep.ok("R5.11", sub, f"emitted under `{norm(by_type[0].ast)[:60]}`: the byte iterator is chosen exactly when the annotated item type is bytes", wsr.loc(c))
             else:
